@@ -36,6 +36,7 @@ type grpMember struct {
 }
 
 type groupsRun struct {
+	reported int // tcp: port of the remote address in the last successful NewProxyResp
 	rnd      *rand.Rand
 	sink     *trace.Sink
 	srv      *env.Server
@@ -209,7 +210,10 @@ func (r *groupsRun) join(m *grpMember) {
 		return
 	}
 	m.joined = resp.Error == ""
-	r.sink.Emit("drv", "drv.group.resp", "pxy", m.name, "errc", groupErrClass(resp.Error), "err", resp.Error)
+	if m.joined && r.kind == "tcp" {
+		r.reported = portOfAddr(resp.RemoteAddr)
+	}
+	r.sink.Emit("drv", "drv.group.resp", "pxy", m.name, "errc", groupErrClass(resp.Error), "err", resp.Error, "remote", resp.RemoteAddr)
 }
 
 func (r *groupsRun) leave(m *grpMember) {
@@ -228,12 +232,14 @@ func (r *groupsRun) probe() {
 	case "tcp":
 		open := false
 		served := "none"
+		openPorts := []int{}
 		for _, port := range []int{r.base, r.base + 1, r.base + 2} {
 			c, err := net.DialTimeout("tcp", fmt.Sprintf("127.0.0.1:%d", port), 300*time.Millisecond)
 			if err != nil {
 				continue
 			}
 			open = true
+			openPorts = append(openPorts, port)
 			lp := c.LocalAddr().(*net.TCPAddr).Port
 			waitFor(1200*time.Millisecond, func() bool {
 				r.mu.Lock()
@@ -248,7 +254,7 @@ func (r *groupsRun) probe() {
 		}
 		// ports the manager accounts as used: one per open group (the port it acquired), none once the group is gone
 		held := len(r.srv.Svc.VerifState().TCP.Used)
-		r.sink.Emit("drv", "drv.group.probe", "open", open, "ports_held", held)
+		r.sink.Emit("drv", "drv.group.probe", "open", open, "ports_held", held, "open_ports", openPorts, "reported", r.reported)
 		if open {
 			r.sink.Emit("drv", "drv.group.served", "member", served)
 		}
@@ -385,6 +391,7 @@ func (r *groupsRun) one(traceNo, steps int) {
 	r.gidPxy = map[int64]string{}
 	r.arrivals = map[int]string{}
 	r.peers = nil
+	r.reported = 0
 	r.kind = []string{"tcp", "tcp", "http", "tcpmux"}[r.rnd.Intn(4)]
 	if r.onlyKind != "" {
 		r.kind = r.onlyKind
@@ -463,6 +470,15 @@ func (r *groupsRun) one(traceNo, steps int) {
 		m0 := r.members[1]
 		m0.key, m0.param = "k1", "p0"
 		r.join(m0)
+		r.probe()
+		first := r.reported
+		r.leave(m0)
+		r.probe()
+		// asking again for a server-chosen port: the previous one is free, the group gets it back
+		r.join(m0)
+		if m0.joined {
+			r.sink.Emit("drv", "drv.group.prevport", "first", first, "second", r.reported)
+		}
 		r.probe()
 		r.leave(m0)
 		r.probe()
